@@ -276,13 +276,14 @@ func runScenario(t *testing.T, sc scenario) (obs observed, fails []failure) {
 			s := snapshot()
 			return view{s.Reg, s.Routes, s.Relays}
 		}
+		daPending := map[int]bool{} // connections a DisconnectAll in progress has unregistered and will close
 		checkOpenRegistered := func(o op) {
 			// a connection that completed its handshake and is still open must be the registered one
 			cmu.Lock()
 			defer cmu.Unlock()
 			perPeer := map[int]int{}
 			for tag, c := range conns {
-				if c.IsClosed() || c.CloseHeld() {
+				if c.IsClosed() || daPending[tag] {
 					continue // closed, or unregistered by a DisconnectAll that is about to close it
 				}
 				pc := pconn[tag]
@@ -526,21 +527,44 @@ func runScenario(t *testing.T, sc scenario) (obs observed, fails []failure) {
 			if o.P == -2 {
 				o.P = lastPeer
 			}
-			if o.C < 0 || o.P < 0 {
+			if (o.C < 0 && o.C != -3) || o.P < 0 {
 				return
 			}
 			// steps that would queue on a lock held by something the script keeps waiting
+			if o.C == -3 {
+				// a connection DisconnectAll has snapshotted but not yet begun to close
+				o.C = -1
+				cmu.Lock()
+				for t, c := range conns {
+					if c.CloseHeld() && !c.CloseWaiting() && !c.IsClosed() {
+						o.C = t
+					}
+				}
+				cmu.Unlock()
+				if o.C < 0 {
+					return
+				}
+			}
 			switch o.K {
 			case "kafail", "readerr", "kawake", "kahang", "disconnect", "disconnectall", "dabegin":
 				if daActive {
-					pending := o.K == "disconnect" || o.K == "disconnectall" || o.K == "dabegin"
-					cmu.Lock()
-					if o.C < len(conns) && conns[o.C].CloseHeld() {
-						pending = true
-					}
-					cmu.Unlock()
-					if pending {
+					if o.K == "disconnect" || o.K == "disconnectall" || o.K == "dabegin" {
 						finishDA()
+					} else {
+						cmu.Lock()
+						var c *peerfam.Conn
+						if o.C < len(conns) {
+							c = conns[o.C]
+						}
+						cmu.Unlock()
+						if c != nil && c.CloseWaiting() {
+							// DisconnectAll is inside this connection's Close: a second Close would queue on its
+							// sync.Once (not a durable block), so that Close finishes first
+							runOp(op{K: "daclose"})
+						} else if c != nil && c.CloseHeld() {
+							// the link fails on its own before DisconnectAll gets to it: its Close is not slowed down
+							c.ReleaseClose()
+						}
 					}
 				}
 			}
@@ -656,7 +680,11 @@ func runScenario(t *testing.T, sc scenario) (obs observed, fails []failure) {
 			case "disconnect":
 				m.Disconnect(peerfam.AgentIDOf(o.P))
 			case "disconnectall":
-				m.DisconnectAll()
+				if o.Via == "sleep" {
+					ag.VerifPeerfamEnterSleep() // the agent's real sleep entry
+				} else {
+					m.DisconnectAll() // as at the end of a poll window
+				}
 			case "dabegin":
 				// DisconnectAll whose Close calls take their time: every registered connection's
 				// transport Close blocks until a "daclose" step
@@ -668,6 +696,7 @@ func runScenario(t *testing.T, sc scenario) (obs observed, fails []failure) {
 				for tag, c := range conns {
 					if pc := pconn[tag]; pc != nil && !c.IsClosed() && m.VerifRegistered(pc) {
 						c.HoldClose()
+						daPending[tag] = true
 						n++
 					}
 				}
@@ -677,8 +706,13 @@ func runScenario(t *testing.T, sc scenario) (obs observed, fails []failure) {
 				}
 				daActive = true
 				daDone.Store(false)
+				viaSleep := o.Via == "sleep"
 				go func() {
-					m.DisconnectAll()
+					if viaSleep {
+						ag.VerifPeerfamEnterSleep()
+					} else {
+						m.DisconnectAll()
+					}
 					daDone.Store(true)
 				}()
 			case "daclose":
@@ -702,6 +736,9 @@ func runScenario(t *testing.T, sc scenario) (obs observed, fails []failure) {
 					}
 					cmu.Unlock()
 					daActive = false
+					for t := range daPending {
+						delete(daPending, t)
+					}
 					return
 				}
 				o.C = tag
@@ -717,6 +754,9 @@ func runScenario(t *testing.T, sc scenario) (obs observed, fails []failure) {
 					}
 					cmu.Unlock()
 					daActive = false
+					for t := range daPending {
+						delete(daPending, t)
+					}
 				}
 			case "relay":
 				for _, hp := range midHeld {
@@ -760,6 +800,16 @@ func runScenario(t *testing.T, sc scenario) (obs observed, fails []failure) {
 					fail(sig,
 						"%v on the already replaced connection c%d of peer %d: registered c%d->c%d, routes %d->%d, relays %d->%d",
 						o, o.C, p, before.reg[p], after.reg[p], before.routes[p], after.routes[p], before.relays[p], after.relays[p])
+				}
+			}
+			for p := range after.reg {
+				if staleFor == p {
+					continue
+				}
+				if before.reg[p] >= 0 && before.reg[p] == after.reg[p] && (after.routes[p] < before.routes[p] || after.relays[p] < before.relays[p]) {
+					fail("live-connection-state-removed",
+						"%v: peer %d keeps its registered connection c%d, yet routes %d->%d, relays %d->%d",
+						o, p, after.reg[p], before.routes[p], after.routes[p], before.relays[p], after.relays[p])
 				}
 			}
 			checkOpenRegistered(o)
@@ -854,6 +904,23 @@ func witnesses() []scenario {
 			{K: "frame", C: 2},
 			{K: "daclose"}, // DisconnectAll finishes: the new registration must survive
 			{K: "frame", C: 2}, {K: "dial", P: -1}, {K: "frame", C: 2}}},
+		{Name: "w-sleep-entry-slow-close-redial", NPeers: 2, Ops: []op{
+			{K: "dial", P: 0}, {K: "dial", P: 1}, {K: "frame", C: 0}, {K: "frame", C: 1}, {K: "relay", P: 0}, {K: "relay", P: 1},
+			{K: "dabegin", Via: "sleep"}, // the agent's enterSleep; Close calls take their time
+			{K: "daclose"},
+			{K: "readerr", C: -1},
+			{K: "accept", P: -1}, // the peer dials back in before the listeners are closed
+			{K: "frame", C: 2}, {K: "relay", P: -1},
+			{K: "daclose"}, // sleep entry completes: nothing of the new connection may be flushed
+			{K: "frame", C: 2}}},
+		{Name: "w-disconnectall-link-fails-before-its-turn", NPeers: 2, Ops: []op{
+			{K: "dial", P: 0}, {K: "dial", P: 1}, {K: "frame", C: 0}, {K: "frame", C: 1},
+			{K: "dabegin"},        // DisconnectAll is busy closing one connection ...
+			{K: "readerr", C: -3}, // ... the link of the other one fails on its own ...
+			{K: "accept", P: -2},  // ... and that peer is back before DisconnectAll gets to its entry
+			{K: "frame", C: 2}, {K: "relay", P: -2},
+			{K: "daclose"}, {K: "daclose"},
+			{K: "frame", C: 2}, {K: "dial", P: -2}}},
 		{Name: "w-callback-sweep-window", NPeers: 1, Ops: []op{
 			{K: "dial", P: 0}, {K: "frame", C: 0}, {K: "relay", P: 0},
 			{K: "readerr", C: 0, Hold: true, HoldAt: "sweep"}, // c0's callback is in the middle of its sweeps
@@ -920,17 +987,31 @@ func genScenario(rd *vh.Rand, i int) scenario {
 			sc.Ops = append(sc.Ops, op{K: "relay", P: p})
 		case x < 95:
 			sc.Ops = append(sc.Ops, op{K: "disconnect", P: p})
-		case x < 97:
-			sc.Ops = append(sc.Ops, op{K: "disconnectall"})
+		case x < 96:
+			sc.Ops = append(sc.Ops, op{K: "disconnectall", Via: []string{"", "sleep"}[rd.Intn(2)]})
 		default:
-			// DisconnectAll with slow Close calls, things happening in between
-			sc.Ops = append(sc.Ops, op{K: "dabegin"}, op{K: "daclose"})
+			// DisconnectAll / sleep entry with slow Close calls, things happening in between
+			sc.Ops = append(sc.Ops, op{K: "dabegin", Via: []string{"", "sleep"}[rd.Intn(2)]})
+			if rd.Chance(1, 2) {
+				sc.Ops = append(sc.Ops, op{K: "readerr", C: -3})
+				if rd.Chance(3, 4) {
+					sc.Ops = append(sc.Ops, op{K: []string{"dial", "accept"}[rd.Intn(2)], P: -2})
+					nconn++
+					if rd.Chance(1, 2) {
+						sc.Ops = append(sc.Ops, op{K: "frame", C: nconn - 1})
+					}
+				}
+			}
+			sc.Ops = append(sc.Ops, op{K: "daclose"})
 			if rd.Chance(2, 3) {
 				sc.Ops = append(sc.Ops, op{K: "readerr", C: -1})
 			}
 			if rd.Chance(2, 3) {
 				sc.Ops = append(sc.Ops, op{K: []string{"dial", "accept"}[rd.Intn(2)], P: -1})
 				nconn++
+				if rd.Chance(1, 2) {
+					sc.Ops = append(sc.Ops, op{K: "frame", C: nconn - 1}, op{K: "relay", P: -1})
+				}
 			}
 			sc.Ops = append(sc.Ops, op{K: "daclose"}, op{K: "daclose"})
 		}
